@@ -785,8 +785,9 @@ class Gaussian(Funsor, metaclass=GaussianMeta):
             (k, v) for k, v in self.inputs.items() if v.dtype == "real"
         )
         new_real_inputs = old_real_inputs.copy()
-        for old_k, (const, coeffs) in affine.items():
+        for old_k in affine:
             del new_real_inputs[old_k]
+        for old_k, (const, coeffs) in affine.items():
             for new_k, (coeff, eqn) in coeffs.items():
                 new_shape = coeff.shape[: len(eqn.split("->")[0].split(",")[1])]
                 new_real_inputs[new_k] = Reals[new_shape]
